@@ -264,7 +264,7 @@ def work(sc):
     return dict(fails=fails[:4], nontrivial=r["nontrivial"])
 
 
-FINISH = {"abc": [2, 3], "two": [2, 3, 5, 6], "loop": [2, 3], "strict": [2, 3], "mix": [2, 3, 5, 6], "opt4": [4], "loop4": [4]}
+FINISH = {"abc": [2, 3], "two": [2, 3, 5, 6], "loop": [2, 3], "strict": [2, 3], "mix": [2, 3, 5, 6], "opt4": [4], "loop4": [4], "samename": [2, 3, 5]}
 D10_SCENARIO = dict(pat="two", n=2, finish=[2, 3, 5, 6],
                     acts=[["in", 0, 1], ["in", 0, 4], ["out", 0], ["upd", 1], ["restart", 1], ["in", 0, 5],
                           ["outinj2", 0, "send", 1]])
@@ -294,6 +294,12 @@ def oracle_scenarios(ctx):
             for pt in SN.POINTS:
                 sc.append(dict(pat="mix", n=n, finish=FINISH["mix"],
                                acts=base + [["restart", 1]] + own + [["outinj2", 0, pt, 1], ["upd", 0], ["out", 0], ["upd", 1]]))
+    # two phenomena share a pattern name: the recovered runs must be bound to their own phenomenon's pattern
+    for n in (2, 3):
+        base = [["in", 0, 1], ["in", 0, 2], ["in", 0, 4], ["out", 0], ["out", 0], ["out", 0]] + [["upd", x] for x in range(1, n)]
+        for k in (0, 1):
+            sc.append(dict(pat="samename", n=n, finish=FINISH["samename"], acts=base + [["restart", k]]))
+            sc.append(dict(pat="samename", n=n, finish=FINISH["samename"], acts=base[:3] + [["restart", k]] + base[3:]))
     # the survivor's run has skipped an optional block (its position is ahead of the number of events it holds)
     for n in (2, 3):
         for pat, ins in (("opt4", [1, 3]), ("loop4", [1, 2, 2, 4]), ("loop4", [1, 2, 4]), ("opt4", [1, 2, 3])):
@@ -333,8 +339,8 @@ def oracle_scenarios(ctx):
                 sc.append(dict(pat="two", n=n, acts=seq[:p] + [["restart", k]] + seq[p:], finish=FINISH["two"]))
     for _ in range(300 if ctx.quick else 8000):
         n = rng.choice((2, 3))
-        pat = rng.choice(("two", "abc", "loop", "strict", "opt4", "loop4"))
-        hi = 6 if pat == "two" else 4 if pat in ("opt4", "loop4") else 3
+        pat = rng.choice(("two", "abc", "loop", "strict", "opt4", "loop4", "samename"))
+        hi = 6 if pat == "two" else 5 if pat == "samename" else 4 if pat in ("opt4", "loop4") else 3
         acts = []
         for _k in range(rng.randint(3, 12)):
             r, i = rng.random(), rng.randrange(n)
